@@ -54,6 +54,8 @@ package internal
 //@ field internal.HandlerFuncParams.Flush = sugardb.(*SugarDB).Flush recv $srv
 //@ field internal.HandlerFuncParams.SwapDBs = sugardb.(*SugarDB).SwapDBs recv $srv
 //@ field internal.HandlerFuncParams.GetClock = sugardb.(*SugarDB).getClock recv $srv
+//@ field internal.HandlerFuncParams.GetConnectionInfo = sugardb.(*SugarDB).getHandlerFuncParams$2 recv $srv
+//@ field internal.HandlerFuncParams.SetConnectionInfo = sugardb.(*SugarDB).getHandlerFuncParams$3 recv $srv
 
 // Every command handler is entered through a HandlerFunc value (sugardb.handleCommand, raft FSM.Apply) with the decoded,
 // non-empty command: the precondition of every handler, checked where handleCommand makes the call.
